@@ -79,6 +79,30 @@ Theorem C19_sparse_vertex : forall a b c rest,
 Proof. exact tri_interp_vertex. Qed.
 Print Assumptions C19_sparse_range.
 
+(* sample_path as a whole.  Raster maps: starts at the pixel of the rounded start, ends at the pixel of the rounded end,
+   in-order selection of the pixel line, own height everywhere *)
+Theorem C19_raster_path : forall width height scale interp tol x1 y1 x2 y2, 0 < tol ->
+  let r0 := py_round x1 in let c0 := py_round y1 in let r1 := py_round x2 in let c1 := py_round y2 in
+  let depth := raster_depth width height scale interp in
+  let path := raster_sample_path width height scale interp tol x1 y1 x2 y2 in
+  let first := (inject_Z r0, inject_Z c0, depth (inject_Z r0) (inject_Z c0)) in
+  hd_error path = Some first /\
+  pt_eqb (last path first) (inject_Z r1, inject_Z c1, depth (inject_Z r1) (inject_Z c1)) = true /\
+  subseq path (raster_line width height scale interp x1 y1 x2 y2) /\
+  Forall (fun p => zof p = depth (fst (fst p)) (snd (fst p))) path.
+Proof. exact raster_path_spec. Qed.
+
+(* Sparse maps: starts exactly at (x1, y1), ends exactly at (x2, y2), in-order selection of the equally spaced samples,
+   own height everywhere *)
+Theorem C19_sparse_path : forall depth tol n x1 y1 x2 y2, 0 < tol -> (1 <= n)%nat ->
+  let path := sparse_sample_path depth tol n x1 y1 x2 y2 in
+  (exists z0, hd_error path = Some (x1 + 0 * ((x2 - x1) / inject_Z (Z.of_nat n)), y1 + 0 * ((y2 - y1) / inject_Z (Z.of_nat n)), z0)) /\
+  (exists zl first, pt_eqb (last path first) (x2, y2, zl) = true) /\
+  subseq path (sparse_line depth n x1 y1 x2 y2) /\
+  Forall (fun p => zof p = depth (fst (fst p)) (snd (fst p))) path.
+Proof. exact sparse_path_spec. Qed.
+Print Assumptions C19_raster_path.
+
 (* non-vacuity *)
 Example C19_nonvacuous :
   draw_line 0 0 2 5 = [(0, 0); (0, 1); (1, 2); (1, 3); (2, 4); (2, 5)]%Z /\
